@@ -2,57 +2,70 @@
 from circuit_common import *
 PROP = "C09"
 RULE = ("half-open bursts (open the breaker, wait, then many callers polled in random order with trial completions, cancellations and panics interleaved), "
-        "both window types, permitted 1..3 + multi-phase bursts (trials of an earlier half-open phase still in flight across re-open and the next half-open phase, then cancelled/completed, then more callers) + random concurrent scripts; non-trivial = the breaker left Closed at least once")
+        "both window types, permitted 1..3 + multi-phase bursts (trials of an earlier half-open phase still in flight across re-open and the next half-open phase, then cancelled/completed, then more callers) + random concurrent scripts + classifier-panic trials; bursts include permitted 4..8, wait 0, slow (successful) trials and calls admitted while closed that complete during the phase; non-trivial = the breaker left Closed at least once")
 
 
 def generate(rng, tier):
     k = 1 if tier == "quick" else 12
     return ([half_open_burst(rng) for _ in range(1000 * k)] + [multi_phase_burst(rng) for _ in range(500 * k)]
-            + [random_concurrent(rng) for _ in range(500 * k)])
+            + [random_concurrent(rng) for _ in range(500 * k)] + [classifier_panic_trials(rng) for _ in range(100 * k)])
 
 
 def monitor(s, t):
+    """The property over the implementation's trace (the same statement as Coq's c09_mon, Proof/Circuit.v, proved
+    to accept every trace of the model — theorem C09_monitor_accepts):
+    a half-open phase = a maximal run of events after each of which state().await is HalfOpen, together with the
+    event that entered it. Per phase: S = inner calls started by polls (the trial calls; the poll that takes the
+    breaker out of Open starts the first), M = the trial callers whose call is still in flight, C = trial calls
+    that ended WITHOUT an outcome (the caller was dropped while in M, or its poll panicked): such a trial may hand
+    its slot back (otherwise a cancelled trial would wedge the breaker half-open).
+      (B) after every event of the phase S - C <= permitted — hence at most `permitted` trial calls are in the
+          wrapped service at any instant, and at most `permitted` trial outcomes are recorded or awaited;
+      (R) a caller polled for the first time when S - C >= permitted is answered in that poll with OpenCircuit /
+          the fallback's response and starts nothing.
+    Without cancellations and panics C = 0 and (B) is the literal bound on all trial calls of the phase."""
     d = decode(s, t)
     if d is None:
         return "malformed or panicking run: %s" % t[:12]
-    perm, fb = s[11], s[12]
+    perm = s[11]
     if perm < 1:
         return None
-    prev_state = 0
-    cur = None          # current half-open phase: dict(starts, hb, members)
-    seen, running = set(), set()
+    prev = 0
+    cur = None          # current half-open phase: [S, C, M]
+    seen = set()
     for (e, o) in d:
         op, a, b = e
         r, started, st = o[0], o[1], o[2]
         if op == 1:
             fresh = a not in seen
             seen.add(a)
-            if prev_state == 2 and fresh and cur is not None and cur["starts"] - cur["hb"] >= perm:
+            if prev == 2 and fresh and cur is not None and cur[0] - cur[1] >= perm:
                 if started or r not in (3, 4):
-                    return "caller %d beyond the %d permitted trial calls was not rejected (r=%d started=%d)" % (a, perm, r, started)
+                    return "caller %d beyond the %d permitted trial calls was not rejected (r=%d started=%d; %d started, %d ended without an outcome in this phase)" % (a, perm, r, started, cur[0], cur[1])
             if started:
-                running.add(a)
-                if prev_state == 2 and cur is not None:
-                    cur["starts"] += 1
-                    cur["members"].add(a)
-                elif prev_state == 1:
-                    cur = {"starts": 1, "hb": 0, "members": {a}}
-                if cur is not None and (prev_state in (1, 2)) and cur["starts"] - cur["hb"] > perm:
-                    return "%d trial calls (excluding %d cancelled) reached the inner service in one half-open phase, permitted %d" % (cur["starts"], cur["hb"], perm)
-            if r in (1, 2, 5):
-                running.discard(a)
-                if cur is not None and a in cur["members"]:
-                    cur["members"].discard(a)
-                    if r == 5:
-                        cur["hb"] += 1
+                if prev == 2 and cur is not None:
+                    cur[0] += started
+                    cur[2].add(a)
+                elif prev == 1:
+                    cur = [started, 0, {a}]
+            if r in (1, 2, 5) and cur is not None and a in cur[2]:
+                cur[2].discard(a)
+                if r == 5:
+                    cur[1] += 1
         elif op == 2:
-            if a in running:
-                running.discard(a)
-                if cur is not None and a in cur["members"]:
-                    cur["members"].discard(a)
-                    cur["hb"] += 1
             seen.add(a)
+            if cur is not None and a in cur[2]:
+                cur[2].discard(a)
+                cur[1] += 1
+        elif started:
+            if prev == 2 and cur is not None:
+                cur[0] += started       # a start not caused by a poll still reaches the wrapped service
         if st != 2:
             cur = None
-        prev_state = st
+        else:
+            if cur is None:
+                cur = [0, 0, set()]     # half-open entered without a starting poll
+            if cur[0] - cur[1] > perm:
+                return "%d trial calls reached the inner service in one half-open phase and only %d of them ended without an outcome; permitted %d" % (cur[0], cur[1], perm)
+        prev = st
     return None
